@@ -287,11 +287,11 @@ theorem q_wake_enabled (qc : QueueSM.Cfg) (q : QueueSM.State Nat) (hq : (QueueSM
 
 /-! ## the parser thread -/
 
-/-- Data invariant of Parser::run() (ASSUMED by the progress theorems below; it belongs to the order
-    property C05): the parser has not consumed more than it has, what it has is inside the file, and
-    for PBF the data it has ends at a blob boundary, i.e. while objects are left the next blob is
-    complete.  (`Cfg.WF` does not relate `chunkEnd` and `blobEnd`; see the counterexample in the
-    final comment of this file.) -/
+/-- Data invariant of Parser::run() (a hypothesis of the progress theorems of this file; PROVED for
+    the reachable states of a well-formed configuration: `Live.run_data`, PipelineLiveData.lean): the
+    parser has not consumed more than it has, what it has is inside the file, and for PBF the data it
+    has ends at a blob boundary, i.e. while objects are left the next blob is complete (needs
+    `Cfg.WF.chunk_blob`; see the final comment of this file). -/
 def RunData (c : Cfg α) (s : State α) : Prop :=
   s.next ≤ s.avail ∧ s.avail ≤ c.file.length ∧
   (c.pbf = true → s.next < s.avail →
@@ -299,7 +299,7 @@ def RunData (c : Cfg α) (s : State α) : Prop :=
   (c.nothing = true → s.cur = [])
 
 /-- futures of the input queue never hold a buffer, futures of the osmdata queue never hold an
-    input chunk (ASSUMED: typing of the two queues) -/
+    input chunk (typing of the two queues; PROVED: `Live.typed`, PipelineLiveTyped.lean) -/
 def Typed (s : State α) : Prop :=
   (∀ id l, s.ppc = .got id → s.fut id ≠ some (.buf l)) ∧
   (∀ id i, s.cpc = .readGot id → s.fut id ≠ some (.chunk i))
@@ -470,21 +470,21 @@ theorem hdrSet (c : Cfg α) (s : State α) (h : (machine c).Reachable s) : HdrSe
   have := inv_hdr c s h hn
   simp [hp, postHdr] at this
 
-/-- (I1, ASSUMED) the read thread sets every promise before it pushes the next future / returns:
+/-- (I1, hypothesis here; PROVED: `inq_fut_ready`, PipelineShapeIn.lean) the read thread sets every promise before it pushes the next future / returns:
     once it has returned, a future the parser holds is ready -/
 def InqFutReady (s : State α) : Prop := s.rpc = .done → ∀ id, s.ppc = .got id → s.fut id ≠ none
 
-/-- (I2, ASSUMED) the read thread's last push is the end marker and the parser stops popping after
+/-- (I2, hypothesis here; PROVED: `inq_marker`, PipelineShapeIn.lean) the read thread's last push is the end marker and the parser stops popping after
     it: if the read thread has returned and the parser is blocked inside wait_and_pop(), the wait
     predicate `!in_use || !empty` holds -/
 def InqMarker (s : State α) : Prop :=
   s.rpc = .done → s.ppc = .popWait → s.inq.pc tP = .popWaiting → QueueSM.pred s.inq = true
 
-/-- (I4, ASSUMED) same for the osmdata queue: the parser's last push is the end marker -/
+/-- (I4, hypothesis here; PROVED: `Live.outq_marker`, PipelineLiveMarker.lean) same for the osmdata queue: the parser's last push is the end marker -/
 def OutqMarker (s : State α) : Prop :=
   s.ppc = .done → s.cpc = .readWaitPop → s.outq.pc tC = .popWaiting → QueueSM.pred s.outq = true
 
-/-- (I5, ASSUMED) a future of the osmdata queue that is not ready once the parser has returned
+/-- (I5, hypothesis here; PROVED: `Live.out_fut_ready`, PipelineLiveTyped.lean) a future of the osmdata queue that is not ready once the parser has returned
     belongs to a submitted blob: its job is still in the work queue or running -/
 def OutFutReady (c : Cfg α) (s : State α) : Prop :=
   s.ppc = .done → ∀ id, s.cpc = .readGot id → s.fut id = none →
@@ -496,7 +496,8 @@ open Live in
 /-- `_partial` version of C07 `no_stuck_state`: while an API call is in progress some internal step
     is enabled, PROVIDED the state satisfies the data/typing invariants `RunData`, `Typed` and the
     four wait-for invariants `InqFutReady`, `InqMarker`, `OutqMarker`, `OutFutReady` (stated above,
-    not proved here; `HdrSet` and the pc correspondence `PcInv` are proved). -/
+    not proved in this file; `HdrSet` and the pc correspondence `PcInv` are proved).  All six are
+    proved as invariants in the other parts; the full theorem is `no_stuck_state` in PipelineLive.lean. -/
 theorem no_stuck_state_partial (c : Cfg α) (wf : c.WF) (s : State α) (h : (machine c).Reachable s)
     (hd : RunData c s) (hty : Typed s) (i1 : InqFutReady s) (i2 : InqMarker s) (i4 : OutqMarker s)
     (i5 : OutFutReady c s)
@@ -600,17 +601,19 @@ theorem no_stuck_state_partial (c : Cfg α) (wf : c.WF) (s : State α) (h : (mac
     | ret r => exact en c s (.cRet r) rfl (by simp [step?, hc])
 
 /-
-FINDING (model level).  `no_stuck_state` with `Cfg.WF` alone is FALSE: `Cfg.WF` does not relate
-`chunkEnd` and `blobEnd`, and the PBF branch of `step?` has no event for "input ended inside a
-blob" (the real PBFParser throws pbf_error there).  Stuck run (WF holds): pbf = true, file = [a, b],
+FINDING (model level, RESOLVED).  With the first version of `Cfg.WF`, which did not relate `chunkEnd`
+and `blobEnd`, `no_stuck_state` was FALSE: the PBF branch of `step?` has no event for "input ended
+inside a blob" (the real PBFParser throws pbf_error there).  Stuck run: pbf = true, file = [a, b],
 chunkEnd = [1, 2], blobEnd = [2], usePool = false, nothing = false, no faults.  Read thread delivers
 chunk 0; the client calls the destructor (stop := true); read thread: rTestDone true, rCloseDec true,
 pushes the end marker, returns.  Parser: pops chunk 0 (avail = 1), pHeader, pops the end marker
 (inputDone = true), shuts the input queue down, is back in `run` with next = 0 < avail = 1 but
 nth blobEnd 0 = 2 > avail: pBlob, pObj (pbf), pThrow, pFlush*, pNewBuf, pRunEnd, pInUse are all
-disabled.  The consumer reaches `dtorJoinP` and waits for `ppc = done` for ever: no step at all is
-enabled.  Hence the hypothesis `RunData` (third component: the data the parser holds ends at a
-blob boundary) of `parser_enabled_or_waiting` / `no_stuck_state_partial`.
+disabled.  The consumer reaches `dtorJoinP` and waits for `ppc = done` for ever.
+`Cfg.WF.chunk_blob` (PBF: every chunk boundary is 0 or a blob boundary, i.e. `chunkEnd` counts only the
+objects of complete blobs) now excludes that configuration (chunkEnd = [1, 2] has 1 ∉ blobEnd = [2]);
+with it the third component of `RunData` is an invariant (`Live.run_data`, PipelineLiveData.lean) and
+`no_stuck_state` holds (PipelineLive.lean).
 -/
 
 end Osmium.Pipeline
